@@ -7,10 +7,11 @@ in order, once the program has finished.  A node delivers events to a child sync
 Nothing here uses generators or any mitmproxy code: programs are explicit lists with a program counter.
 
 Events:   ("S",)  ("data", conn, uid)  ("done", key, reply)  ("wake", key)
-Log:      (step, layer, "start", uid) (step, layer, "reply", key, value) (step, layer, "end", uid)
+Log:      (step, layer, "start", uid, state) (step, layer, "reply", key, value) (step, layer, "end", uid)
 Command kinds: H hook (blocking), O open of an unrelated server (blocking), w wakeup request (not blocking,
 completed by a "wake" event), s send (no completion), T open of the tunnelled connection (blocking, intercepted by
-a tunnel node), NL next-layer question (blocking), TO the tunnel's own open (blocking).
+a tunnel node), NL next-layer question (blocking), TO the tunnel's own open (blocking), X no command: the probe
+switches to its other handler state for all later events.
 """
 from __future__ import annotations
 
@@ -116,12 +117,24 @@ class Node:
 
 
 class ProbeNode(Node):
+    """Scripted leaf.  It is a two-state machine: op X switches the state that handles the *next* event (the
+    `self._handle_event = self.state_x` idiom of real layers); the state is part of the 'start' log entry."""
+
+    def __init__(self, spec, name, parent=None):
+        super().__init__(spec, name, parent)
+        self.state = 0
+
+    def toggle(self):
+        self.state = 1 - self.state
+
     def program(self, ev):
         uid = uid_of(ev)
-        yield ("log", "start", uid)
+        yield ("log", "start", uid, self.state)
         for k, op in enumerate(self.spec.script(self.name, uid)):
             key = f"{self.name}/{uid}/{k}{op}"
-            if op in "HOT":
+            if op == "X":
+                yield ("do", self.toggle)
+            elif op in "HOT":
                 yield ("emit", key, op, True, (lambda reply, key=key: [("log", "reply", key, reply)]))
             else:
                 yield ("emit", key, op, False, None)
